@@ -185,8 +185,8 @@ func H08() {
 		ll += ` min-elements 1; max-elements 5;`
 	}
 	ll += ` }`
-	base := `module m { namespace "urn:m"; prefix m; ` + lf + ` ` + ll + ` list ls { key k; leaf k { type string; } max-elements 5; } container c { leaf other { type string; default "o"; } } leaf untouched { type int8; default "3"; } grouping g { leaf gl { type string; default "a"; } } container u1 { uses g; } container u2 { uses g; } }`
-	targets := []string{"lf", "ll", "ls", "c", "missing", "u1/m:gl"}
+	base := `module m { namespace "urn:m"; prefix m; typedef td { type string; default "t"; } leaf lt { type td; } ` + lf + ` ` + ll + ` list ls { key k; leaf k { type string; } max-elements 5; } container c { leaf other { type string; default "o"; } } leaf untouched { type int8; default "3"; } grouping g { leaf gl { type string; default "a"; } } container u1 { uses g; } container u2 { uses g; } }`
+	targets := []string{"lf", "ll", "ls", "c", "missing", "u1/m:gl", "lt"}
 	target := targets[symChoice(len(targets))]
 	nd := 1 + symChoice(param("d"))
 	var devs []h08Dev
@@ -197,8 +197,15 @@ func H08() {
 		dtext += d.text()
 	}
 	ignoreNS := symBool()
-	dev := `module d { namespace "urn:d"; prefix d; import m { prefix m; } deviation /m:` + target + ` { ` + dtext + `} }`
-	note(base + dev)
+	dstmt := `deviation /m:` + target + ` { ` + dtext + `} `
+	dev := `module d { namespace "urn:d"; prefix d; import m { prefix m; } ` + dstmt + `}`
+	devsub := ""
+	if symBool() {
+		// the deviation statement is written in a submodule of the deviating module
+		dev = `module d { namespace "urn:d"; prefix d; include ds; }`
+		devsub = `submodule ds { belongs-to d { prefix d; } import m { prefix m; } ` + dstmt + `}`
+	}
+	note(base + dev + devsub)
 
 	// run A: without the deviating module (pre-state and frame)
 	msA, lerrsA := hLoad(base)
@@ -224,6 +231,9 @@ func H08() {
 	}
 	e1 := msB.Parse(base, "f0.yang")
 	e2 := msB.Parse(dev, "f1.yang")
+	if devsub != "" && e2 == nil {
+		e2 = msB.Parse(devsub, "f2.yang")
+	}
 	check(e1 == nil, "base parses again")
 	if e2 != nil {
 		// an unknown deviate kind or a malformed body may already be refused at load time: reported
@@ -281,5 +291,83 @@ func H08() {
 	if target == "c" && got.present {
 		// (the child's inherited read-only-ness follows the container's config: not part of the frame)
 		check(hReplaceNS(hDumpTree(emB.Dir["c"].Dir["other"], ""), " ro\n", "\n") == hReplaceNS(hDumpTree(emA.Dir["c"].Dir["other"], ""), " ro\n", "\n"), "children of a deviated container are untouched")
+	}
+}
+
+// H08seq: several deviation statements on one path in one module, in written order: a
+// deviation that comes after a not-supported of the same node finds no target and is reported.
+func H08seq() {
+	base := `module m { namespace "urn:m"; prefix m; container c { leaf x { type string; default "a"; } leaf keep { type string; } } }`
+	stmts := []string{
+		`deviation /m:c/m:x { deviate replace { default "b"; } } `,
+		`deviation /m:c/m:x { deviate not-supported; } `,
+		`deviation /m:c/m:x { deviate replace { default "c"; } } `,
+		`deviation /m:c { deviate not-supported; } `,
+		`deviation /m:c/m:keep { deviate add { default "k"; } } `,
+	}
+	n := 2 + symChoice(2)
+	var seq []int
+	text := ""
+	for i := 0; i < n; i++ {
+		k := symChoice(len(stmts))
+		seq = append(seq, k)
+		text += stmts[k]
+	}
+	dev := `module d { namespace "urn:d"; prefix d; import m { prefix m; } ` + text + `}`
+	note(dev)
+	ms, lerrs := hLoad(base, dev)
+	check(len(lerrs) == 0, "modules parse")
+	errs := ms.Process()
+	// reference: sequential application
+	hasC, hasX, hasKeep := true, true, true
+	xdef, kdef := "a", ""
+	mustErr := false
+	for _, k := range seq {
+		switch k {
+		case 0, 2:
+			if !hasC || !hasX {
+				mustErr = true
+			} else {
+				xdef = []string{"b", "", "c"}[k]
+			}
+		case 1:
+			if !hasC || !hasX {
+				mustErr = true
+			} else {
+				hasX = false
+			}
+		case 3:
+			if !hasC {
+				mustErr = true
+			} else {
+				hasC = false
+			}
+		case 4:
+			if !hasC || !hasKeep {
+				mustErr = true
+			} else if kdef != "" {
+				mustErr = true // adding a default where one exists
+			} else {
+				kdef = "k"
+			}
+		}
+	}
+	if len(errs) > 0 {
+		reach("rejected")
+		check(mustErr, "deviations that can be applied in their written order are applied without error")
+		return
+	}
+	reach("applied")
+	check(!mustErr, "a deviation whose target an earlier deviation removed (or that adds a default where one exists) is reported")
+	c := ToEntry(ms.Modules["m"]).Dir["c"]
+	check((c != nil) == hasC, "not-supported removes exactly the target")
+	if c != nil {
+		check((c.Dir["x"] != nil) == hasX, "not-supported removes exactly the target")
+		if x := c.Dir["x"]; x != nil {
+			check(len(x.Default) == 1 && x.Default[0] == xdef, "several deviations on one target take effect in their written order")
+		}
+		if kp := c.Dir["keep"]; kp != nil {
+			check((kdef == "" && len(kp.Default) == 0) || (len(kp.Default) == 1 && kp.Default[0] == kdef), "the sibling changes only as deviated")
+		}
 	}
 }
